@@ -111,6 +111,23 @@ def get_version(request):
     return None
 
 
+def _is_finite(value):
+    """
+    Checks that the given value (read from a JSON text) contains neither an
+    infinity nor a NaN, which can't be written back as JSON
+
+    :param value: A value, possibly a list or a dictionary
+    :return: True if the value can be written back as JSON
+    """
+    if isinstance(value, float):
+        return value == value and value not in (float("inf"), float("-inf"))
+    elif isinstance(value, (utils.ListType, utils.TupleType)):
+        return all(_is_finite(item) for item in value)
+    elif isinstance(value, utils.DictType):
+        return all(_is_finite(item) for item in value.values())
+    return True
+
+
 def validate_request(request, json_config):
     """
     Validates the format of a request dictionary
@@ -131,9 +148,7 @@ def validate_request(request, json_config):
 
     # Get the request ID
     rpcid = request.get("id", None)
-    if isinstance(rpcid, float) and (
-        rpcid != rpcid or rpcid in (float("inf"), float("-inf"))
-    ):
+    if not _is_finite(rpcid):
         # Not a number or beyond the range of a float (e.g. 1e999):
         # such an ID can't be written back in a JSON response
         fault = Fault(
